@@ -148,21 +148,31 @@ Theorem C12_algebra_scale : forall (a : current Q) k s,
 Proof. exact qscale_left_law. Qed.
 Print Assumptions C12_algebra_scale.
 
-(* arbitrary nesting.  `qceval e s` evaluates the tree pointwise (sum, difference, scalar multiple) on the coefficients of its
-   leaves.  Full strength for a class whose in-place operators are its binary ones (InplaceRebind): *)
+(* arbitrary nesting, INCLUDING the in-place spellings `a += b`, `a -= b`, `a *= k`.  `qceval e s` evaluates the
+   tree pointwise (sum, difference, scalar multiple) on the coefficients of its leaves; `repo_inplace_mode` is
+   what tools/gen_c12.py read off the class body of Current in the tree under test (it defines __iadd__ and
+   __isub__ as the binary operators since a20c019, so the mode is InplaceRebind; if they are removed this theorem
+   stops compiling). *)
 Theorem C12_algebra : forall (e : cexpr Q) s,
-  qcoeff (qdenote InplaceRebind e) s == qceval e s.
-Proof. exact qtree_rebind_law. Qed.
+  qcoeff (qdenote repo_inplace_mode e) s == qceval e s.
+Proof. exact qtree_repo_law. Qed.
 Print Assumptions C12_algebra.
 
-(* In whichever mode Python runs the in-place statements: true for every tree in which no `a += b` / `a -= b`
-   has a right operand with a station the left operand lacks (in particular for every tree without in-place
-   sums/differences).  The unguarded statement for today's code is refuted in Props/C12_findings.v. *)
-Theorem C12_algebra_partial : forall m (e : cexpr Q) s,
+(* why the class must define the in-place operators itself: with the operators a pandas Series inherits
+   (NDFrame._inplace_method, mode InplaceReindex) the law fails — `t = Current("s0"); t += Current({"s0": 1,
+   "s1": 2})` gives s1 the coefficient 0 instead of 2 (the defect repaired by a20c019; corpus/C12) *)
+Theorem C12_algebra_inherited_inplace_loses_stations :
+  exists (e : cexpr Q) (s : station), ~ qcoeff (qdenote InplaceReindex e) s == qceval e s.
+Proof. exact inplace_refuted. Qed.
+Print Assumptions C12_algebra_inherited_inplace_loses_stations.
+
+(* in whichever mode the in-place statements run: true for every tree in which no `a += b` / `a -= b` has a
+   right operand with a station the left operand lacks *)
+Theorem C12_algebra_any_mode : forall m (e : cexpr Q) s,
   inplace_lossless 0 1 Qplus Qmult (-1 # 1) m e = true ->
   qcoeff (qdenote m e) s == qceval e s.
 Proof. exact qtree_law. Qed.
-Print Assumptions C12_algebra_partial.
+Print Assumptions C12_algebra_any_mode.
 
 (* the same over any commutative ring (coefficients in Z, in R, ...) *)
 Theorem C12_algebra_ring :
@@ -311,3 +321,15 @@ Example C12_algebra_partial_example :
   inplace_lossless 0 1 Qplus Qmult (-1 # 1) InplaceReindex
     (EIadd (EDict [(1%nat, 1); (2%nat, 0)]) (ERmul 3 (EStr 2%nat))) = true.
 Proof. reflexivity. Qed.
+
+(* observation (not a violation of alignment): the "_v2" renaming is applied once and not re-checked, so names
+   can repeat; remove_constraint then deletes the first one and a subset query returns both rows *)
+Example C12_duplicate_names_example :
+  let ops := [ ORegister 1%nat 208 0;
+               OAdd [(1%nat, 1)] 10 (Some "a"%string); OAdd [(1%nat, 2)] 20 (Some "a"%string);
+               OAdd [(1%nat, 3)] 30 (Some "a"%string) ] in
+  cnames (run 0 ops net0) = ["a"; "a_v2"; "a_v2"]%string /\
+  qcc (mkSched 1 [[1]]) (Some ["a_v2"]%string) None (run 0 ops net0) = Ok [[Some (2 * 1 + 0)]; [Some (3 * 1 + 0)]] /\
+  cnames (run 0 (ops ++ [ORemove "a_v2"%string]) net0) = ["a"; "a_v2"]%string /\
+  list_eqb Qeq_bool (mags (run 0 (ops ++ [ORemove "a_v2"%string]) net0)) [10; 30] = true.
+Proof. vm_compute. repeat split. Qed.
